@@ -55,7 +55,7 @@ def mc(chk, cfg, what, consts, workers=None, timeout=3000):
     return r
 
 
-def emit_replay(chk, yv, tag, jobs, nproc=6, only_restore=False):
+def emit_replay(chk, yv, tag, jobs, nproc=6, only_restore=False, late=False):
     """jobs: list of dicts of write_cfg arguments (one TLC run each, one worker each).
     Emits behaviours with TLC and replays them on the real crate."""
     wd = workdir(tag)
@@ -74,7 +74,13 @@ def emit_replay(chk, yv, tag, jobs, nproc=6, only_restore=False):
             raise ToolError("%s: no behaviours emitted" % name)
         f = os.path.join(wd, name + ".ndjson")
         write_ndjson(f, rows)
-        lines = harness_lines(run_harness(yv, ["tok-replay", f], timeout=3000))
+        if late:
+            # (run_harness inherits the environment: the late replays are on for every replay of this call)
+            os.environ["YV_LATE"] = "1"
+        try:
+            lines = harness_lines(run_harness(yv, ["tok-replay", f], timeout=3000))
+        finally:
+            os.environ.pop("YV_LATE", None)
         return (name, r, rows, lines)
 
     total_rows = total_calls = 0
@@ -91,7 +97,7 @@ def emit_replay(chk, yv, tag, jobs, nproc=6, only_restore=False):
             chk.sample({"direction": "A", "behaviour": rows[len(rows) // 2]})
     chk.cov["replayed_behaviours"] += total_rows
     chk.cov["traces_validated_against_impl"] += total_rows
-    chk.stage("A:" + tag, behaviours=total_rows, real_calls=total_calls, embeddings=9)
+    chk.stage("A:" + tag, behaviours=total_rows, real_calls=total_calls, embeddings=11)
 
 
 def record_validate(chk, yv, tag, family, nfiles, programs, steps, nproc=8):
